@@ -460,24 +460,30 @@ def check_property(prop, tier, only=None, keep=False, jobs=None):
                 continue
             # failed: counterexample(s) - one per failed CBMC property
             descs = sorted({f["description"] for f in r["failed_checks"]})
-            tests = obtain_playback(work, crate, h, r)
-            if not tests and h.fallback_inputs:
-                # the solver has a counterexample but its assignment could not be extracted: try the registered
-                # candidate inputs natively; a candidate that fails on the real build confirms the violation
-                tests = {}
+            tests = {}
+            if h.fallback_inputs:
+                # harnesses whose only symbolic input is one byte array carry a few candidate inputs: extracting the
+                # solver's own assignment needs a full CBMC trace (tens of GB and up to an hour for the larger
+                # programs), so the candidates are tried natively FIRST; one that makes the same assertion fail on the
+                # real build confirms the solver-found violation. Only if none does is the trace requested.
                 for ci, cand in enumerate(h.fallback_inputs):
                     body = ",\n".join("        vec!%s" % json.dumps(list(v)) for v in cand)
-                    src = ("/// fallback candidate %d for harness `%s::%s` (solver assignment unavailable: %s)\n#[test]\n"
+                    src = ("/// candidate input %d for harness `%s::%s` (the solver reported a counterexample; this input confirms it natively)\n#[test]\n"
                            "fn kani_concrete_playback_%s_fallback%d() {\n    let concrete_vals: Vec<Vec<u8>> = vec![\n%s\n    ];\n"
-                           "    kani::concrete_playback_run(concrete_vals, %s);\n}\n" % (ci, h.module, h.name, r.get("playback_note", "no test printed"), h.name, ci, body, h.name))
+                           "    kani::concrete_playback_run(concrete_vals, %s);\n}\n" % (ci, h.module, h.name, h.name, ci, body, h.name))
                     rep, msg, _ = native_replay(work, h, src)
                     if rep:
                         for d in descs:
-                            if d in msg or not d.startswith("C"):
+                            if d in msg or not re.match(r"^C\d\d:", d):
                                 tests.setdefault(d, src)
-                        if tests:
-                            notes.append("solver assignment unavailable for %s; confirmed natively with fallback candidate %d" % (h.name, ci))
+                        if len(tests) == len(descs):
                             break
+                if tests:
+                    notes.append("counterexample of %s confirmed natively with a registered candidate input" % h.name)
+            if len(tests) < len(descs):
+                more = obtain_playback(work, crate, h, r) or {}
+                for k, v in more.items():
+                    tests.setdefault(k, v)
             if not tests:
                 inconclusive.append("%s: counterexample for %s but no concrete playback could be produced (%s)" % (h.name, descs, r.get("playback_note", "no playback test in the output")))
                 continue
